@@ -39,6 +39,7 @@ type X2Config struct {
 	Prefix       []XEvent // the search starts from the state this history leads to (Depth counts the events after it)
 	Store        bool     // run with a store (and hence the persist loop) although Save is not in the alphabet
 	AdvAlways    bool     // clock steps are offered in every state
+	NoDedup      bool     // every history up to the depth is executed: no state is merged, so state the key cannot see (a flag, a cache, a counter a change may add) cannot hide a history
 	logDir       string
 }
 
@@ -261,6 +262,9 @@ func (c *X2Config) Run(deadline Budget, auditSlice int) *X2Result {
 					vs = append(vs, panicViolation(w2.S.Panic, w2.S.PanicStack))
 				}
 				key := w2.StateKey(c.Symmetry)
+				if c.NoDedup {
+					key = histString(hist)
+				}
 				if len(vs) > 0 {
 					addViol(vs, hist, w2)
 					w2.Close()
